@@ -86,9 +86,11 @@ def gsize(g):
 def build(g, _top=True):
     """Assemble with the library's own operations so that the namespace invariant holds the way
     the library establishes it: add_child for structure, then add_namespace top-down."""
-    n = Node(g["name"], id=g["id"]) if g.get("id") is not None else Node(g["name"])
-    if g["content"] is not None:
-        n.content = g["content"]
+    # content goes through the constructor (the loaders use the setter: the two ways of giving a node its text must agree)
+    if g.get("id") is not None:
+        n = Node(g["name"], id=g["id"], content=g["content"])
+    else:
+        n = Node(g["name"], content=g["content"])
     if g["tail"] is not None:
         n.tail = g["tail"]
     for k, v in g["attrs"]:
